@@ -3,7 +3,7 @@ import ast
 
 from ..astx import (calls_in, dotted, norm, src, iter_nodes, assigned_targets, assigned_names,
                     const_value, is_const, parent_chain)
-from ..lib import (cfg_nodes_with_call, node_calls, returns, stmt_assigns_attr, callee_last,
+from ..lib import (call_arg, relation, truth, other, cmp_views, core, holds_region, conditions, eval_conditions, relation_tests, atom_key, expand_condition, mode_mismatch_conditions, cfg_nodes_with_call, node_calls, returns, stmt_assigns_attr, callee_last,
                    is_name, is_self_attr, node_roots, guard_region, compare_parts, find_test_nodes)
 from ..linear import ctext, lin, Lin
 from ..loader import AnalysisError
@@ -149,8 +149,11 @@ def check_order(c, repo):
                     and norm(n.ast.value.elts[1]).endswith('.exitstatus'), f, n.ast,
                     'run(withexitstatus) reports exactly child.exitstatus', witness=norm(n.ast), kind='ast', tag='run-field')
     c.need(nreads >= 1, 'run(): no read of exitstatus found')
-    w = [t for t in g.nodes if t.kind == 'test' and norm(t.ast) == 'withexitstatus']
-    c.check(len(w) == 1, f, w[0].ast if w else None, 'the tuple form is returned iff withexitstatus', kind='ast', tag='run-flag')
+    w = [t for t in g.nodes if t.kind == 'test' and norm(core(t)) == 'withexitstatus']
+    tup = [r for r in returns(f) if isinstance(r.ast.value, ast.Tuple)]
+    plain = [r for r in returns(f) if not isinstance(r.ast.value, ast.Tuple)]
+    ok = len(w) == 1 and bool(tup) and bool(plain) and all(r in holds_region(g, w[0], True) for r in tup) and all(r in holds_region(g, w[0], False) for r in plain)
+    c.check(ok, f, w[0].ast if w else None, 'the tuple form is returned iff withexitstatus', kind='path', tag='run-flag')
 
 
 def eval_sign_guard(test, var, value):
